@@ -56,6 +56,7 @@ type Path struct {
 	NAssertsTriv int
 	spawned      []*Job
 	allocOn      bool
+	RealFmt      bool
 	naux         int
 	facts        map[int]*Term // term id -> constant implied by the path condition
 	simpMemo     map[int]*Term
@@ -105,6 +106,7 @@ type HarnessConfig struct {
 	BigLim       int
 	AllMapOrders bool
 	PanicsOK     bool // panics are not violations (rare)
+	RealFmt      bool // fmt.Sprintf formats concrete simple arguments for real
 	BudgetIsViolation bool
 	MaxPaths     int
 	AllocLimit   func(params map[string]int) (perSite uint64, total uint64) // nil = no monitor
@@ -700,7 +702,7 @@ func (ip *Interp) RunJob(job *Job) {
 	r := ip.run
 	cfg := r.Configs[cfgKey(job.Harness, job.Params)]
 	fn := ip.findHarness(cfg)
-	p := &Path{Job: job, Model: job.Model, Budget: cfg.Budget, BigLim: cfg.BigLim, AllMapOrders: cfg.AllMapOrders, Reached: map[string]bool{}}
+	p := &Path{Job: job, Model: job.Model, Budget: cfg.Budget, BigLim: cfg.BigLim, AllMapOrders: cfg.AllMapOrders, Reached: map[string]bool{}, RealFmt: cfg.RealFmt}
 	if p.Budget == 0 {
 		p.Budget = 2000000
 	}
